@@ -348,7 +348,7 @@ expand_home.hints = {'loop-0-body-entry': 'assert("~"@.len() == 1 && "~"@[0] == 
                                           '  assert forall|a: Seq<char>| #![trigger a.subrange(0, 1)] a.len() >= 1 implies (a.subrange(0, 1) == "~"@) == (a[0] == \'~\') by { '
                                           '    if a[0] == \'~\' { assert(a.subrange(0, 1) =~= "~"@); } else { assert(a.subrange(0, 1)[0] == a[0]); } } }'}
 
-expand_env = text_pass('expand_env', 'T.0@ != "`"@ && T.0@ != "\'"@ && spec_env_in_token(T.1@)', 'C10+C13+C01', inner_dec='_token@.len()')
+expand_env = text_pass('expand_env', 'T.0@ != "`"@ && T.0@ != "\'"@ && T.0@ != "\\\\"@ && spec_env_in_token(T.1@)', 'C10+C13+C01', inner_dec='_token@.len()')
 expand_env.props = ('C10',)
 
 PASSES = ['expand_alias(sh, tokens)', 'expand_home(tokens)', 'expand_env(sh, tokens)', 'expand_brace(tokens)', 'expand_glob(tokens)',
